@@ -431,6 +431,8 @@ def r0_generated(ctx):
             ev = AEval(funcs=vf)
             ev.path_builtins = {"L::from_str": lambda a, res=res: res, "<L as FromStr>::from_str": lambda a, res=res: res, "FromStr::from_str": lambda a, res=res: res}
             ev.builtins = {"parse": lambda rv, a, res=res: res}
+            import re as _re
+            ev.opaque_paths = _re.compile(r"^(L|Self|<L as [\w:]+>)::\w+$")    # anything else asked of the locale type is visible in the result
             outs.append(ev.run_fn(f, [A("visitor"), S(text_)]))
         if any(isinstance(o, str) for o in outs):
             return r, False, [o for o in outs if isinstance(o, str)][0]
@@ -449,13 +451,21 @@ def r0_generated(ctx):
 def run(ctx):
     import os
     r0, ok, why = r0_generated(ctx)
+    # `get_all` lists the default first because the configuration loader puts it there (and `Default` is the first
+    # variant): the default-first clause of C19.R0 (decided by rules/c19.py)
+    from rules import c19
+    from rules.common import borrow
+    k0, _ok, _why = c19.r0_config(ctx)
+    r3 = borrow(k0, "C13.R3", "the locale list the enum is generated from has the default first, each locale once",
+                "`get_all lists every locale exactly once with the default first`: the generator keeps the order of the configured "
+                "list, so the normalisation done when the configuration is loaded is part of this property", only=r"ConfigFile::new", floor=1)
     if ok and not os.environ.get("VERIF_FORCE_FALLBACK"):
-        return [r0, r2_scoped(ctx)]
+        return [r0, r2_scoped(ctx), r3]
     if not ok and not r0.violations:
         r0.instances[:] = []
         r0.inst("evaluation not available", "fallback to the structural rule R1: %s" % str(why)[:160])
         r0.floor = 1
-    return [r0, r1_enum(ctx), r2_scoped(ctx)]
+    return [r0, r1_enum(ctx), r2_scoped(ctx), r3]
 
 
 MANIFEST_ENTRY = {
